@@ -55,14 +55,14 @@ def whitening(ctx):
 
 def wccn(ctx):
     out = []
-    for kind in ("numpy", "dask"):
+    for kind, pinv in (("numpy", False), ("numpy", True), ("dask", False)):
         I = new_interp()
         IN.LabelSet.count = 0
         holder = {}
 
-        def build(kind=kind):
+        def build(kind=kind, pinv=pinv):
             IN.LabelSet.count = 0
-            return [mk_obj(I, "WCCN"), input_arr("X", (L.Nn, L.Dd), kind), input_arr("y", (L.Nn,), dtype="int")], {}
+            return [mk_obj(I, "WCCN", pinv=pinv), input_arr("X", (L.Nn, L.Dd), kind), input_arr("y", (L.Nn,), dtype="int")], {}
 
         enum_name = ["pi1"]
 
@@ -92,7 +92,7 @@ def wccn(ctx):
         F = L.facts()
         F.dims.add("K_pi1")
         F.pos_syms.add("K_pi1")
-        cl = K.check_function(I, "wccn.WCCN.fit", build, spec, F, "C14.wccn.%s" % kind, state_names={0: "self"}, structural=False)
+        cl = K.check_function(I, "wccn.WCCN.fit", build, spec, F, "C14.wccn.%s%s" % (kind, ".pinv" if pinv else ""), state_names={0: "self"}, structural=False)
         out += cl
     res = []
     num = [c for c in out if ".numpy" in c.name]
